@@ -30,7 +30,7 @@ def parseBool? (s : String) : Option Bool :=
 * `graph <strategy> <chunk> <parents> <children>`   strategy: lazy|immediate|joined|subquery|selectin
 * `unwrapped <off> <lim|N> <parents> <children>`    the joined plan without the wrap
 * `count <strategy> <nparents>`
-* `nest <eagerJoins> <multiRow> <limit> <offset> <distinct> <groupBy>`
+* `nest <eagerJoins> <multiRow> <limit> <offset> <fetch> <distinct> <groupBy>`
 * `refs <parents> <children>`                       many-to-one: child=parent pairs
 -/
 def handle : List String → String
@@ -63,10 +63,10 @@ def handle : List String → String
       if ch == 0 then "bad-op" else
       "ok " ++ ",".intercalate ((SaVerif.Imv.chunk ch (List.range k)).map (fun b => toString b.length))
     | _, _ => "bad-op"
-  | ["nest", a, b, c, d, e, f] =>
-    match parseBool? a, parseBool? b, parseBool? c, parseBool? d, parseBool? e, parseBool? f with
-    | some ej, some mr, some hl, some ho, some di, some gb => if shouldNest ej mr hl ho di gb then "1" else "0"
-    | _, _, _, _, _, _ => "bad-op"
+  | ["nest", a, b, c, d, f0, e, f] =>
+    match parseBool? a, parseBool? b, parseBool? c, parseBool? d, parseBool? f0, parseBool? e, parseBool? f with
+    | some ej, some mr, some hl, some ho, some hf, some di, some gb => if shouldNest ej mr hl ho hf di gb then "1" else "0"
+    | _, _, _, _, _, _, _ => "bad-op"
   | ["refs", ps, cs] =>
     match parseParents? ps, parseChildren? cs with
     | some parents, some children =>
